@@ -6,6 +6,7 @@ import AscentVerif.Model.EnginePhys
 import AscentVerif.Model.EnginePhysPar
 import AscentVerif.Model.EnginePhysTimeout
 import AscentVerif.Model.EnginePhysLat
+import AscentVerif.Model.EnginePhysParLat
 import AscentVerif.Model.StdOps
 import AscentVerif.Proofs.PlanSwapBody
 namespace AscentVerif.Driver
@@ -290,6 +291,26 @@ def doRunPhysPar (s : EngStore) (inst : String) (threads : Nat) : Option (EngSto
       | .ok none => some (s, "nofuel")
       | .panic => some (s, "panic (frozen-state protocol)")
 
+/-- `run()` through the PARALLEL physical-index engine model WITH lattices (`Model/EnginePhysParLat.lean`) in a pool of `threads`
+workers (rules one after the other: no `#![inter_rule_parallelism]`): aggregation-free programs -/
+def doRunPhysParLat (s : EngStore) (inst : String) (threads : Nat) : Option (EngStore × String) := do
+    let i ← (s.insts.find? (·.1 == inst)).map (·.2)
+    let p := desugRepeated i.pd.prog
+    if p.rules.any (fun r => r.body.any fun | .agg _ => true | _ => false) then some (s, "na")
+    else
+      let ix := Phys.ixSetsOf stdVars p
+      if !PhysParLat.latPlanOk stdVars p ix then some (s, "na-plan")
+      else
+        let s0 : PhysParLat.PLSt := PhysParLat.initSt threads p ix fun r => (relSt i.st r).rows
+        match PhysParLat.run (interp (kindOf i.pd)) stdVars p ix i.pd.order (demoSched threads) false threads defaultFuel s0 with
+        | .ok (some ps) =>
+          let st : St := (List.range p.rels.length).map fun r =>
+            let rows := PhysParLat.xrows ps.st r
+            { rows := rows, idx := List.range rows.length }
+          some ({ s with insts := (inst, { i with st := st, iters := ps.iters }) :: s.insts.filter (·.1 != inst) }, "ok")
+        | .ok none => some (s, "nofuel")
+        | .panic => some (s, "panic (frozen-state protocol)")
+
 def handleEng (s : EngStore) : List Sexp → Option (EngStore × String)
   | [.atom "prog", .atom id, p] => do
     let pd ← parseProg p
@@ -324,6 +345,7 @@ def handleEng (s : EngStore) : List Sexp → Option (EngStore × String)
       some ({ s with insts := (inst, i') :: s.insts.filter (·.1 != inst) }, "ok")
     else if op == "runin" then doRun s inst
     else if op == "runpp" then do doRunPhysPar s inst (← r.asNat?)
+    else if op == "runppl" then do doRunPhysParLat s inst (← r.asNat?)
     else if op == "runtop" then do doRunPhysTimeout s inst (← r.asNat?)
     else if op == "runto" then do
       let i ← (s.insts.find? (·.1 == inst)).map (·.2)
